@@ -4,6 +4,66 @@ use crate::util::*;
 use chrono::{Datelike, NaiveDate, NaiveTime, Timelike};
 use core::fmt::Write;
 
+// Item-level inverse: the item sequence a format string denotes is formatted by the real writer and parsed back by the
+// real `format::parse`; the text -> items step (StrftimeItems) is the subject of C15's progress harnesses and is not
+// repeated here, which keeps core::fmt's padding machinery and the strftime scanner out of the formula.
+// @ob tier=quick timeout=900 mem=14
+// @desc item-level format/parse inverse for %H:%M:%S: the real writer's text for the items [Hour, ":", Minute, ":", Second] parses back (format::parse + Parsed::to_naive_time) to the same time of day, for every time with fraction 0 and for every leap second (printed as 60, read back as the leap representation)
+// @bounds all times of day with fraction 0, plus fraction exactly 10^9 on any second (leap representation); items concrete
+// @funcs DelayedFormat::write_to, format_numeric, format::parse / parse_internal, scan::number, Parsed::{set_*, to_naive_time}
+#[kani::proof]
+#[kani::unwind(10)]
+fn c13_items_hms() {
+    use chrono::format::{parse, Item, Numeric, Pad, Parsed};
+    let s: u32 = kani::any();
+    let leap: bool = kani::any();
+    kani::assume(s < 86_400);
+    let t = NaiveTime::from_num_seconds_from_midnight_opt(s, if leap { 1_000_000_000 } else { 0 }).unwrap();
+    let items = [
+        Item::Numeric(Numeric::Hour, Pad::Zero),
+        Item::Literal(":"),
+        Item::Numeric(Numeric::Minute, Pad::Zero),
+        Item::Literal(":"),
+        Item::Numeric(Numeric::Second, Pad::Zero),
+    ];
+    let mut buf = Buf::<8>::new();
+    assert!(t.format_with_items(items.iter()).write_to(&mut buf).is_ok() && !buf.overflow && buf.len == 8);
+    let mut p = Parsed::new();
+    assert!(parse(&mut p, buf.as_str(), items.iter()).is_ok());
+    let back = p.to_naive_time();
+    assert!(back.is_ok());
+    let b = back.unwrap();
+    assert!(b.num_seconds_from_midnight() == s && b.nanosecond() == t.nanosecond());
+    kani::cover!(leap && s % 60 == 59);
+    kani::cover!(s == 86_399);
+}
+
+// @ob tier=quick timeout=900 mem=14
+// @desc item-level format/parse inverse for %Y-%m-%d (years 0..=9999): the real writer's text for [Year, "-", Month, "-", Day] parses back (format::parse + Parsed::to_naive_date) to the same date
+// @bounds all dates with year 0..=9999; items concrete
+// @funcs DelayedFormat::write_to, format_numeric, write_year, format::parse / parse_internal, scan::number, Parsed::{set_*, to_naive_date}
+#[kani::proof]
+#[kani::unwind(12)]
+fn c13_items_ymd() {
+    use chrono::format::{parse, Item, Numeric, Pad, Parsed};
+    let d = any_date();
+    kani::assume(d.year() >= 0 && d.year() <= 9999);
+    let items = [
+        Item::Numeric(Numeric::Year, Pad::Zero),
+        Item::Literal("-"),
+        Item::Numeric(Numeric::Month, Pad::Zero),
+        Item::Literal("-"),
+        Item::Numeric(Numeric::Day, Pad::Zero),
+    ];
+    let mut buf = Buf::<10>::new();
+    assert!(d.format_with_items(items.iter()).write_to(&mut buf).is_ok() && !buf.overflow && buf.len == 10);
+    let mut p = Parsed::new();
+    assert!(parse(&mut p, buf.as_str(), items.iter()).is_ok());
+    assert!(p.to_naive_date() == Ok(d));
+    kani::cover!(d.month() == 2 && d.day() == 29);
+    kani::cover!(d.year() == 0);
+}
+
 macro_rules! date_format_roundtrip {
     ($name:ident, $fmt:expr, $cap:expr, $ylo:expr, $yhi:expr) => {
         // @ob tier=thorough timeout=5400 mem=16
